@@ -102,6 +102,43 @@ inline void enumerate(Ctx& C, const std::vector<std::string>& toks, int n, const
   }
 }
 
+// character-level micro-alphabets: every string up to a length over a handful of characters that drive one lexical
+// sub-automaton (comments, string escapes, numbers), prefixed so that they sit at top level and inside an array
+inline void microAlphabets(Ctx& C, int len, uint64_t& dontCare, std::map<std::string, uint64_t>& zones, uint64_t& total) {
+  struct Micro { const char* name; std::string chars; };
+  std::vector<Micro> micros = {
+      {"comment", std::string("/*a1\n]")},
+      {"string", std::string("\"'\\u0a")},
+      {"number", std::string("10.e-+")},
+  };
+  std::string cfg = cfgTag();
+  for (auto& m : micros) {
+    if (std::string(m.name) == "comment" && !ARDUINOJSON_ENABLE_COMMENTS) continue;
+    for (int n = 1; n <= len; n++) {
+      std::vector<size_t> idx(size_t(n), 0);
+      for (;;) {
+        if (C.expired()) return;
+        if (C.take()) {
+          std::string body;
+          for (size_t k : idx) body.push_back(m.chars[k]);
+          for (const char* prefix : {"", "[", "[1"}) {
+            std::string text = std::string(prefix) + body;
+            C.begin("in:json:" + vis(text) + "|cfg=" + cfg + "|alphabet=" + m.name);
+            total++;
+            uint64_t before = dontCare;
+            judge(C, text, 10, dontCare, zones);
+            if (dontCare == before) C.nontrivial();
+            C.end();
+          }
+        }
+        int k = n - 1;
+        while (k >= 0 && ++idx[size_t(k)] == m.chars.size()) idx[size_t(k--)] = 0;
+        if (k < 0) break;
+      }
+    }
+  }
+}
+
 inline void run(Ctx& C) {
   int nFull = atoi(C.opt("full", "3").c_str()), nCore = atoi(C.opt("core", "5").c_str());
   uint64_t dontCare = 0, total = 0;
@@ -109,11 +146,14 @@ inline void run(Ctx& C) {
   auto full = fullTokens(), core = coreTokens();
   enumerate(C, full, nFull, "full", dontCare, zones, total);
   enumerate(C, core, nCore, "core", dontCare, zones, total);
+  int nMicro = atoi(C.opt("micro", "6").c_str());
+  microAlphabets(C, nMicro, dontCare, zones, total);
   C.metrics["sequences"] += double(total);
   C.metrics["dontcare_verdicts"] += double(dontCare);
   for (auto& kv : zones) C.metrics["zone:" + kv.first] += double(kv.second);
   // outcome histogram is expensive per case; summarise by zone instead
   C.bound("all token sequences of length <= " + std::to_string(nFull) + " over the " + std::to_string(full.size()) + "-token alphabet and length <= " +
-          std::to_string(nCore) + " over the " + std::to_string(core.size()) + "-token core, nesting limits 10 and 1, build " + cfgTag());
+          std::to_string(nCore) + " over the " + std::to_string(core.size()) + "-token core, nesting limits 10 and 1; all strings of length <= " + std::to_string(nMicro) +
+          " over three character-level micro-alphabets (comment: / * a 1 LF ]; string: \" ' \\ u 0 a; number: 1 0 . e - +) at top level and inside an array; build " + cfgTag());
 }
 }  // namespace ix_dialect
